@@ -22,6 +22,7 @@ func init() {
 			"large scalability structures: N_G in {4,16,64,85,86,128,255} x R patterns (all 0, all 3, cyclic) x N_S {0,7} x Y, truncations sampled (every cut below 24, every 7th, the last 6)",
 			"large frames: key and inter frames of {65535,65536,65537,70000,140000} bytes (aperiodic content) at MTU {100,1200,65535} in both modes, preceded by a small frame on the same payloader",
 			"frame pairs: a key frame followed on the same payloader by a near-identical one (width or height +-1, other profile, same) and the reverse; the second frame is held to the same per-frame oracle (its own coded size in the scalability structure, picture id +1, lossless)",
+			"decoder: the reserved bits of a scalability structure (three in its first octet, two in every picture-group octet) come all clear and all set - the VP9 RTP format has the receiver ignore them, so the decoded values must not depend on them",
 			"decoder: SID >= 5 is not generated (documented library limit); coded width 65536 does not fit the 16-bit SS field and is not used with the non-flexible payloader",
 		},
 		Scenarios: []mc.Scenario{
@@ -368,6 +369,7 @@ func c12Decoder(c *mc.Ctx) {
 		d.NS = mc.From(c, []uint8{0, 1, 4, 7})
 		d.Y, d.G = c.Bool(), c.Bool()
 		d.SSRes = uint8(c.Pick(2) * 7)
+		d.PGRes = d.SSRes & 3 // the reserved bits of the structure are all clear or all set
 		if d.Y {
 			for i := 0; i <= int(d.NS); i++ {
 				d.Width = append(d.Width, uint16(0xFFFF-i*0x1111))
